@@ -48,7 +48,31 @@ def _schema_ok(e):
 _CH = re.compile(r"(^|\.)Ch")
 
 
-def preprocess(src, dst):
+def _label_invariant(e, subs):
+    """the invariants of Props.tla that speak about one label only (who may run which callback:
+    C07_ReducerContext, C07_DirectOnReducer, C10_OwnThread, C11_Worker), evaluated on a recorded
+    event before TLC looks for an explanation of the whole log.  Returns the violated one or None."""
+    if e["ev"] != "cb":
+        return None
+    t = e["t"].split(".")[-1]
+    d = e["d"]
+    what, who = d["what"], d["who"].split(".")[-1]
+    if what in ("effect", "after"):
+        if not re.fullmatch(r"W\d+", t) or t != who:
+            return "C11_Worker"
+    elif what in ("reduce", "before_reduce", "before_effect", "before_dispatch", "on_error"):
+        if t != "R":
+            return "C07_ReducerContext"
+    elif what in ("notify", "change"):
+        kind = (subs.get(who) or {}).get("kind")
+        if kind == "chan" and t != "Ch" + who:
+            return "C10_OwnThread"
+        if kind in ("direct", "sel") and t != "R":
+            return "C07_DirectOnReducer"
+    return None
+
+
+def preprocess(src, dst, subs=None):
     """split into runs, drop harness-only events, link the events of each thread; returns run list
     [(id, first_index, n_events)] and the list of malformed events"""
     recs = []
@@ -73,6 +97,9 @@ def preprocess(src, dst):
             if e["ev"] in DROP:
                 continue
             if not _schema_ok(e):
+                bad.append((runs[-1][0] if runs else None, e))
+            elif subs is not None and _label_invariant(e, subs):
+                e["violates"] = _label_invariant(e, subs)
                 bad.append((runs[-1][0] if runs else None, e))
             elif e["ev"] == "cb" and _CH.search(e["t"]) and e["d"]["rd"]:
                 # a delivery thread's callback reads the state some time after it took the item (two
@@ -154,11 +181,14 @@ def validate(inst, trace_path, d=None, timeout=600, clients=None, invariants=(),
     """returns dict(accepted, reached, total, run (id of the first unexplained run), event, wall, out)"""
     d = d or tlc.workdir("trace_" + inst["name"])
     proc = os.path.join(d, "trace.proc.ndjson")
-    recs, runs, bad = preprocess(trace_path, proc)
+    recs, runs, bad = preprocess(trace_path, proc, subs=inst.get("subs") or {})
     res = {"accepted": False, "reached": 0, "total": len(recs), "runs": len(runs), "bad": bad[:3]}
     if bad:
         res["reason"] = "malformed event"
         res["run"], res["event"] = bad[0][0], bad[0][1]
+        if bad[0][1].get("violates"):
+            res["reason"] = "label invariant"
+            res["label_invariant"] = bad[0][1]["violates"]
         return res
     if not recs:
         res["accepted"] = True
